@@ -20,7 +20,7 @@ def main():
         if r.returncode != 0:
             print("PATCH DOES NOT APPLY:", r.stdout, r.stderr)
             return 2
-        env = dict(os.environ, GOFLAGS="-mod=mod", GOPROXY="off", GOSUMDB="off", GOTOOLCHAIN="local")
+        env = dict(os.environ, GOFLAGS="-mod=mod -trimpath", GOPROXY="off", GOSUMDB="off", GOTOOLCHAIN="local")
         env.pop("GOWORK", None)
         b = subprocess.run(["go", "build", "./..."], cwd=dst, env=env, capture_output=True, text=True)
         if b.returncode != 0:
